@@ -113,6 +113,26 @@ def run(ck):
                     cands.append((n, names))
         # keep maximal chains
         cands = [c for c in cands if not any(c[0] is not d[0] and any(x is c[0] for x in walk(d[0])) for d in cands)]
+        if len(cands) == 0:
+            # loop form: for n in <children> { if let Some(x) = f(n) { v.push(x) } }
+            loopforms = []
+            for c in H.calls_in(fn['body']):
+                if c.get('k') in ('Call', 'MCall'):
+                    lf = H.absorbing_child_loop(fn, c)
+                    if lf is not None and any(x in pp(lf['loop']['iter'], maxlen=200) for x in ('children', 'child_object_nodes', 'child_indices')):
+                        loopforms.append((c, lf))
+            if len(loopforms) == 1:
+                c, lf = loopforms[0]
+                n_p += 1
+                bad = []
+                for c2 in H.calls_in(fn['body']):
+                    if c2.get('k') == 'MCall' and c2 is not lf['push'] and (H.root_local(c2['recv']) or {}).get('hid') == lf['vec_hid'] and (L.ty(c2['recv'], adjusted=True) or '').startswith('&mut '):
+                        bad.append('%s() on the collected children' % c2['m'])
+                if lf['conditional'] and 'filter_map' not in extra:
+                    bad.append('children are dropped conditionally')
+                ck.ob('R11.1', 'pipeline|%s' % short(path), not bad, L.loc(lf['loop']),
+                      'loop form: for each child in order, push the result%s' % (' if it is Some' if lf['conditional'] else '') if not bad else 'loop over the children with %s' % bad, fn=path)
+                continue
         if len(cands) != 1:
             ck.ob('R11.1', 'pipeline|%s' % short(path), False, L.loc(fn['body']), 'expected one child pipeline, found %d (a multi-pass construction can reorder children)' % len(cands), fn=path)
             continue
@@ -137,7 +157,11 @@ def run(ck):
     if pr is not None:
         cl = next((a for c in H.calls_in(pr['body']) if c.get('m') == 'filter_map' for a in c['args'] if a.get('k') == 'Closure'), None)
         ok = cl is not None and any(c.get('m') == 'populate_node_rec' for c in H.calls_in(cl['body'])) and len(list(H.calls_in(cl['body']))) == 1
-        ck.ob('R11.1', 'tree-recursion-only-drops-failed-children', ok, L.loc(cl) if cl else '', 'filter_map(|&n| self.populate_node_rec(n, ..)): a child is absent only if its own construction failed')
+        rec_calls = [c for c in H.calls_in(pr['body']) if c.get('m') == 'populate_node_rec']
+        lf = H.absorbing_child_loop(pr, rec_calls[0]) if len(rec_calls) == 1 and cl is None else None
+        if lf is not None and lf['conditional']:
+            ok = True
+        ck.ob('R11.1', 'tree-recursion-only-drops-failed-children', ok, L.loc(cl) if cl else (L.loc(lf['loop']) if lf else ''), 'a child is absent only if its own construction failed (filter_map over the recursion, or its loop form)')
         # parent index is pushed after the children (post-order) and child_indices is what the recursion returned
         st = next((n for n in walk(pr['body']) if n.get('k') == 'Struct' and (n.get('def') or '').endswith('ObjectNodeData')), None)
         ok = False
@@ -146,6 +170,8 @@ def run(ck):
             if f is not None:
                 org = H.origin_callees(pr, f['e'], through=())
                 ok = any(x.endswith('collect') for x in org)
+                if not ok and lf is not None:
+                    ok = (H.root_local(f['e']) or {}).get('hid') == lf['vec_hid']
         ck.ob('R11.1', 'child-indices-are-the-recursion-results', ok, L.loc(st) if st else '', 'child_indices <- the collected recursion results')
 
     # ---- R11.2 dispatch chains ------------------------------------------------------------------
